@@ -632,6 +632,7 @@ def main(chk, replay=None):
         "checker_cmd": res["cmd"] + extra_cmd + " ; " + tv["cmd"],
         "archives": len(jobs), "requests_to_real_server": 3 * len(reqs), "audit_hook_calls": hook_calls,
         "model_constants": consts, "trace_states": tv["states"],
+        "drift_kinds": {w: sum(1 for d_ in tv["drift"] if d_["what"] == w) for w in sorted({d_["what"] for d_ in tv["drift"]})},
         "model_coverage_zero": sorted(k for k, v in res.get("coverage", {}).items() if v[0] == 0)[:20],
         "bindings": ["B2 every final state of MC_C16 built as a real archive + twin", "B3 TraceC16",
                      "reference bound to the kernel (extract events, clause RefIsKernel)"],
